@@ -99,10 +99,10 @@ PROPERTY = {
 }
 
 HARNESSES = [
-    dict(name='optimize-prec-assignment', fn='h_optimize', property=['C20'], functions=['plinio/methods/mps/utils.py::optimize_prec_assignment', 'plinio/methods/mps/utils.py::_compute_cost'],
+    dict(name='optimize-prec-assignment', bounded='concrete values: one-layer per-channel MPS models (64 / 32 channels, 3x3 kernel, NE16 cost), stated start counts', fn='h_optimize', property=['C20'], functions=['plinio/methods/mps/utils.py::optimize_prec_assignment', 'plinio/methods/mps/utils.py::_compute_cost'],
          quick=[dict(cin=32, counts=[33, 20, 11])], thorough=[dict(cin=32, counts=[33, 20, 11]), dict(cin=48, counts=[34, 19, 11]), dict(cin=32, counts=[14, 10, 8])],
          timeout=120, crosscheck=1, budget=600),
-    dict(name='reassign', fn='h_reassign', property=['C20'], functions=['plinio/methods/mps/utils.py::_reassign_precisions'],
+    dict(name='reassign', bounded='sizes P x C up to 3 x 3 (values symbolic and exhaustive)', fn='h_reassign', property=['C20'], functions=['plinio/methods/mps/utils.py::_reassign_precisions'],
          quick=[dict(P=P, C=C, best=list(b)) for P, C in ((2, 2), (2, 3), (3, 2)) for b in _compositions(C, P)],
          thorough=[dict(P=P, C=C, best=list(b)) for P, C in ((2, 2), (2, 3), (3, 2), (2, 4), (3, 3)) for b in _compositions(C, P)],
          timeout=30, max_paths=100000),
